@@ -238,7 +238,7 @@ func c01Corpus(c *Ctx) error {
 
 func c01Fresh(c *Ctx) error {
 	r := c.Rng.Fork()
-	n := c.N(14, 320)
+	n := nFor(c, 14, 320, 40)
 	maxSize := 3*lib.BS + 17
 	if !c.Thorough() {
 		maxSize = 2*lib.BS + 17 // the model side of a quick run stays within seconds
@@ -269,7 +269,7 @@ func c01Fresh(c *Ctx) error {
 
 func c01Pairs(c *Ctx) error {
 	r := c.Rng.Fork()
-	n := c.N(24, 300)
+	n := nFor(c, 24, 300, 30)
 	for i := 0; i < n; i++ {
 		cr := r.Fork()
 		opts := lib.PairOpts{MaxFiles: 5, MaxSize: 4 * lib.BS, Links: true}
@@ -297,7 +297,7 @@ func c01Pairs(c *Ctx) error {
 
 func c01Apply1(c *Ctx) error {
 	r := c.Rng.Fork()
-	n := c.N(300, 6000)
+	n := nFor(c, 300, 6000, 3000)
 	bss := []int{1, 2, 3, 4, 5, 8, 16}
 	for i := 0; i < n; i++ {
 		cr := r.Fork()
@@ -436,23 +436,37 @@ func (cf *craft) container() *tlc.Container {
 
 // genCraft makes one crafted patch: per new file a series chosen among well-formed and
 // ill-formed shapes. olds are the old files in container (sorted path) order.
-func genCraft(r *lib.Rng) *craft {
+func genCraft(r *lib.Rng) *craft { return genCraftWith(r, nil, -1) }
+
+// genCraftWith: forced (optional) fixes the shape of every new file's series (see the switch
+// below) and the old build (2 blocks + 9 bytes, 1 block); damage (optional, 0..3) applies one
+// stream-level damage.
+func genCraftWith(r *lib.Rng, forced []int, damage int) *craft {
 	BS := lib.BS
 	cf := &craft{old: &lib.Build{}, want: map[string][]byte{}}
 	nOld := r.Range(1, 3)
+	if forced != nil {
+		nOld = 2
+	}
 	var olds [][]byte
 	for i := 0; i < nOld; i++ {
 		size := []int{0, 5, BS - 1, BS, BS + 1, 2 * BS, 2*BS + 9}[r.Intn(7)]
+		if forced != nil {
+			size = []int{2*BS + 9, BS}[i]
+		}
 		d := lib.RunContent(r, size)
 		cf.old.Put(lib.Entry{Path: fmt.Sprintf("o%d.bin", i), Kind: "file", Data: d})
 		olds = append(olds, d)
 	}
 	nNew := r.Range(1, 3)
+	if forced != nil {
+		nNew = len(forced)
+	}
 	bad := r.Chance(1, 3) // at most one ill-formed series per patch, in a random position
 	badAt := r.Intn(nNew)
 	classes := []string{}
 	cf.dirs = []string{"d"}
-	if r.Chance(1, 4) {
+	if forced == nil && r.Chance(1, 4) {
 		cf.links = append(cf.links, [2]string{"lnk", "o0.bin"})
 	}
 	for i := 0; i < nNew; i++ {
@@ -460,11 +474,14 @@ func genCraft(r *lib.Rng) *craft {
 		if i == 1 {
 			p = "d/n1.bin"
 		}
-		if i == 2 && r.Chance(1, 6) {
+		if i == 2 && forced == nil && r.Chance(1, 6) {
 			p = "nodir/n2.bin" // parent not among the container's dirs: Prepare fails
 			classes = append(classes, "parent-missing")
 		}
 		t := int64(r.Intn(nOld))
+		if forced != nil {
+			t = 0
+		}
 		od := olds[t]
 		nb := (int64(len(od)) + int64(BS) - 1) / int64(BS)
 		var ms []lib.PMsg
@@ -473,7 +490,10 @@ func genCraft(r *lib.Rng) *craft {
 		known := true
 		shape := r.Intn(7)
 		if bad && i == badAt {
-			shape = 7 + r.Intn(9)
+			shape = 7 + r.Intn(10)
+		}
+		if forced != nil {
+			shape = forced[i]
 		}
 		switch shape {
 		case 0: // full-file op, sometimes followed by ops the patcher must ignore
@@ -483,7 +503,7 @@ func genCraft(r *lib.Rng) *craft {
 				break
 			}
 			ms, content = []lib.PMsg{lib.Range(t, 0, nb)}, od
-			switch r.Intn(4) {
+			switch r.Intn(3) {
 			case 1:
 				ms = append(ms, lib.DataOp(nil))
 				classes = append(classes, "full+empty-data")
@@ -568,6 +588,11 @@ func genCraft(r *lib.Rng) *craft {
 			ms = []lib.PMsg{lib.BH(t), lib.Ctl(blk(1, len(od)+1), nil, 0), lib.CtlEof()}
 			known = false
 			classes = append(classes, "bad/bsdiff-add-past-end")
+		case 16: // looks like a full-file op but starts at block 1 (never emitted by the differ)
+			ms = []lib.PMsg{lib.Range(t, 1, nb)}
+			size = int64(len(od))
+			known = false
+			classes = append(classes, "bad/shifted-full")
 		case 15: // bsdiff whose output length is not the declared size
 			ms = []lib.PMsg{lib.BH(t), lib.Ctl(nil, blk(2, 5), 0), lib.CtlEof()}
 			size = 9
@@ -590,8 +615,11 @@ func genCraft(r *lib.Rng) *craft {
 		}
 	}
 	// stream-level damage
-	if r.Chance(1, 8) {
-		switch r.Intn(4) {
+	if dmg := r.Intn(4); (forced == nil && r.Chance(1, 8)) || damage >= 0 {
+		if damage >= 0 {
+			dmg = damage
+		}
+		switch dmg {
 		case 0:
 			cf.msgs = cf.msgs[:len(cf.msgs)-1] // last end marker missing
 			classes = append(classes, "bad/truncated")
@@ -652,9 +680,36 @@ func min64(a, b int64) int64 {
 	return b
 }
 
+// craftCorpus: every series shape once on its own, every ill-formed shape also in front of a
+// well-formed series, every stream-level damage; the same in every run (fixed sub-seeds).
+func craftCorpus() []*craft {
+	var out []*craft
+	for shape := 0; shape <= 16; shape++ {
+		out = append(out, genCraftWith(lib.NewRng(uint64(1000+shape)), []int{shape}, -1))
+		if shape >= 7 {
+			out = append(out, genCraftWith(lib.NewRng(uint64(2000+shape)), []int{shape, 1}, -1))
+		}
+	}
+	for v := 0; v < 3; v++ { // the three variants of the full-file shape
+		out = append(out, genCraftWith(lib.NewRng(uint64(3000+v)), []int{0, 0, 0}, -1))
+	}
+	for dmg := 0; dmg < 4; dmg++ {
+		out = append(out, genCraftWith(lib.NewRng(uint64(4000+dmg)), []int{1, 6}, dmg))
+	}
+	for _, cf := range out {
+		cf.class = "corpus/" + cf.class
+	}
+	return out
+}
+
 func c01Craft(c *Ctx) error {
 	r := c.Rng.Fork()
-	n := c.N(40, 900)
+	for i, cf := range craftCorpus() {
+		if err := runCraft(c, fmt.Sprintf("c01-craftcorpus-%d", i), cf, lib.Compressions[i%len(lib.Compressions)]); err != nil {
+			return err
+		}
+	}
+	n := nFor(c, 20, 900, 900)
 	for i := 0; i < n; i++ {
 		cr := r.Fork()
 		cf := genCraft(cr)
